@@ -17,7 +17,7 @@ ASSUMPTIONS = [
 
 class Check(HCheck):
     pid = ID
-    owned = ("create", "page", "rule", "reopen", "clear", "delete")
+    owned = ("create", "page", "rule", "reopen", "clear", "delete", "pcrawl")
     must_count = ("ids_checked", "id_after_reopen", "id_after_delete", "id_after_clear", "several_ids_in_one_report", "multi_prefix_creation")
 
     def spaces(self, tier):
@@ -31,6 +31,7 @@ class Check(HCheck):
             al.page(Bb),
             al.links((Sx, Az), (C1 + b"h:c|", Az)),
             al.rule(A, "path1"),
+            al.pcrawl(2, (Bb, (Bb + b"p:k|", C1 + b"h:c|", Ab)), (Ab, (Bb,))),  # abandoned after 2 steps
             al.REOPEN,
             al.clear("domain", {A: "path1"}),
         ]
